@@ -1,11 +1,11 @@
 package core
 
 import (
-	"sort"
 	"bytes"
 	"encoding/json"
 	"fmt"
 	"regexp"
+	"sort"
 	"strconv"
 	"strings"
 	"time"
